@@ -61,6 +61,21 @@ TOKENS_THAT_IMPLY_DIVISON = frozenset([
     'RBRACKET',
 ])
 
+# tokens that end an operand of a postfix operator; a right parenthesis
+# also does unless it closes the header of a statement, and a right
+# brace is left out as it typically ends a block.
+POSTFIX_OPERAND_END = frozenset([
+    'ID',
+    'NUMBER',
+    'STRING',
+    'REGEX',
+    'TRUE',
+    'FALSE',
+    'NULL',
+    'THIS',
+    'RBRACKET',
+])
+
 IMPLIED_BLOCK_IDENTIFIER = frozenset([
     'FOR',
     'WHILE',
@@ -382,6 +397,16 @@ class Lexer(object):
                 token.type == 'BLOCK_COMMENT' and
                 PATT_LINE_TERMINATOR_SEQUENCE.search(token.value)))
 
+    def _is_operand_end(self, token):
+        # whether the real token could be the last token of a
+        # left-hand-side expression, i.e. a postfix operator may follow.
+        return token is not None and (
+            token.type in POSTFIX_OPERAND_END or
+            self._is_property_name(token) or (
+                token.type == 'RPAREN' and
+                not getattr(token, 'closes_header', False))
+        )
+
     def _is_prev_token_lt(self, token):
         return getattr(token, 'after_line_terminator', False)
 
@@ -414,6 +439,9 @@ class Lexer(object):
                     self.token_stack[-1][1].pop()
                 else:
                     self.token_stack.pop()
+                    # this closes the header of a for/if/while/with
+                    # statement, what follows is not an operator.
+                    self.cur_token.closes_header = True
 
             if not self.token_stack:
                 # TODO actually give up earlier than this with the first
@@ -442,6 +470,15 @@ class Lexer(object):
                     self.next_tokens.append(self.cur_token)
                 elif self.with_comments:
                     self.hidden_tokens.append(self.cur_token)
+            return self._create_semi_token(self.cur_token)
+
+        # likewise for ++ and --, which cannot be postfix operators when
+        # separated from their operand by a line terminator.
+        if (self.cur_token is not None
+                and self.cur_token.type in ('PLUSPLUS', 'MINUSMINUS')
+                and self._is_prev_token_lt(self.cur_token)
+                and self._is_operand_end(self.prev_token_real)):
+            self.next_tokens.append(self.cur_token)
             return self._create_semi_token(self.cur_token)
 
         return self.cur_token
